@@ -16,7 +16,7 @@ var opcodes = map[string]byte{
 	"ADDRESS": 0x30, "CALLVALUE": 0x34, "CALLDATALOAD": 0x35, "CALLDATASIZE": 0x36, "CODECOPY": 0x39,
 	"POP": 0x50, "MLOAD": 0x51, "MSTORE": 0x52, "SLOAD": 0x54, "SSTORE": 0x55, "JUMP": 0x56, "JUMPI": 0x57, "GAS": 0x5a,
 	"JUMPDEST": 0x5b, "DUP1": 0x80, "DUP2": 0x81, "SWAP1": 0x90, "LOG0": 0xa0, "LOG1": 0xa1,
-	"CREATE": 0xf0, "CALL": 0xf1, "RETURN": 0xf3, "REVERT": 0xfd, "INVALID": 0xfe, "SELFDESTRUCT": 0xff,
+	"CREATE": 0xf0, "CALL": 0xf1, "RETURN": 0xf3, "STATICCALL": 0xfa, "REVERT": 0xfd, "INVALID": 0xfe, "SELFDESTRUCT": 0xff,
 }
 
 // Asm assembles a whitespace separated program. Tokens: opcode names; decimal or 0x literals (PUSH of minimal width);
@@ -80,6 +80,8 @@ const (
 	OpSend    = 8  // call a with value b (no data); reverts if the call fails
 	OpEnergy  = 9  // call the energy builtin: transfer(a, b); reverts if the call fails
 	OpNestDie = 10 // sstore(a, b); call U' = c with [d, a, b]; then REVERT  (outer fails after an inner success)
+	OpNest3   = 11 // sstore(a, b); call U' = c with [d, a, b, e, f] (100000 gas, result ignored); sstore(a+1, b)
+	OpStatic  = 12 // STATICCALL the energy builtin: transfer(a, b) - a state-changing native call in a read-only frame
 )
 
 // EnergyTransferSelector is the ABI selector of transfer(address,uint256).
@@ -92,7 +94,7 @@ func UCode() []byte {
 	inner := " 128 CALLDATALOAD 0 MSTORE 32 CALLDATALOAD 32 MSTORE 64 CALLDATALOAD 64 MSTORE " +
 		" 0 0 96 0 0 96 CALLDATALOAD 40000 CALL POP " // inner frame gets a fixed 40000 gas
 	src := " 0 CALLDATALOAD "
-	for op := 1; op <= 10; op++ {
+	for op := 1; op <= 12; op++ {
 		src += fmt.Sprintf(" DUP1 %d EQ @op%d JUMPI ", op, op)
 	}
 	src += " STOP "
@@ -107,6 +109,11 @@ func UCode() []byte {
 	src += " op9: " + EnergyTransferSelector + " 224 SHL 0 MSTORE 32 CALLDATALOAD 4 MSTORE 64 CALLDATALOAD 36 MSTORE " +
 		fmt.Sprintf(" 0 0 68 0 0 0x%x GAS CALL ISZERO @fail JUMPI STOP ", energyAddr())
 	src += " op10: " + store + inner + " 0 0 REVERT "
+	src += " op11: " + store +
+		" 128 CALLDATALOAD 0 MSTORE 32 CALLDATALOAD 32 MSTORE 64 CALLDATALOAD 64 MSTORE 160 CALLDATALOAD 96 MSTORE 192 CALLDATALOAD 128 MSTORE " +
+		" 0 0 160 0 0 96 CALLDATALOAD 100000 CALL POP 64 CALLDATALOAD 32 CALLDATALOAD 1 ADD SSTORE STOP "
+	src += " op12: " + EnergyTransferSelector + " 224 SHL 0 MSTORE 32 CALLDATALOAD 4 MSTORE 64 CALLDATALOAD 36 MSTORE " +
+		fmt.Sprintf(" 0 0 68 0 0x%x GAS STATICCALL POP STOP ", energyAddr())
 	src += " fail: 0 0 REVERT " // a failed inner call of op8 / op9 fails the whole frame
 	return Asm(src)
 }
